@@ -86,6 +86,7 @@ func c07ServiceEvents(c *core.Ctx, p c04Params) {
 	}
 	defer rg.stop()
 	cidChars := "abcxyzABC019-_:;,!#%&()[]{}|~^`'\"@=+/\\$"
+	badCIDs := []string{"a b", " ", "a.b", "a*", ">", "a?b", "", "a\tb", "a\x7f", "é", "a\nb"}
 	randCID := func() string {
 		n := 1 + r.Intn(12)
 		b := make([]byte, n)
@@ -111,6 +112,20 @@ func c07ServiceEvents(c *core.Ctx, p c04Params) {
 		switch k := r.Intn(14); k {
 		case 0:
 			cid := randCID()
+			if r.Intn(4) == 0 {
+				cid = badCIDs[r.Intn(len(badCIDs))]
+				var pn interface{}
+				if r.Intn(2) == 0 {
+					pn = try(func() { rg.S.TokenEvent(cid, nil) })
+				} else {
+					pn = try(func() { rg.S.TokenEventWithID(cid, "tid", nil) })
+				}
+				what = fmt.Sprintf("TokenEvent(%q) with a non-conformant connection id", cid)
+				if pn == nil {
+					c.Violation("C07/tokenevent-accepts-invalid-cid", fmt.Sprintf("TokenEvent(%q) did not refuse a connection id that is not a valid subject token", cid), what)
+				}
+				break
+			}
 			what = "TokenEvent(" + cid + "," + vk + ")"
 			s := rg.S
 			if pn := try(func() { s.TokenEvent(cid, scriptValue(vk)) }); pn != nil && ref.ValidNamePart(cid) {
@@ -141,6 +156,7 @@ func c07ServiceEvents(c *core.Ctx, p c04Params) {
 				{Op: "event", K: "add", V: "ok"}, {Op: "event", K: "add", V: "unmarshalable"}, {Op: "event", K: "remove", V: "ok"},
 				{Op: "event", K: "create", V: "ok"}, {Op: "event", K: "create", V: "unmarshalable"}, {Op: "event", K: "delete"}, {Op: "event", K: "reaccess"}, {Op: "event", K: "reset"},
 				{Op: "event", K: "custom", V: "ok"}, {Op: "event", K: "custom", V: "nilpayload"}, {Op: "event", K: "custom", V: "unmarshalable"}, {Op: "event", K: "query"},
+				{Op: "event", K: "custom", V: "invalid-space"}, {Op: "event", K: "custom", V: "invalid-wild"}, {Op: "event", K: "custom", V: "invalid-dot"}, {Op: "event", K: "custom", V: "invalid-empty"},
 			}
 			a := evs[r.Intn(len(evs))]
 			what = rid + " " + script{a}.String()
